@@ -25,6 +25,10 @@ type bvote struct {
 type book struct {
 	votes map[string][]bvote
 	seen  map[string]bool
+	// inTree: the checkpoints of the engine's in-memory tree at the current observation.  A finalization
+	// re-roots the tree and drops the branches that do not descend from the new root; their votes stay in
+	// the store.  The violation key says when the earlier vote of a pair sits on such a dropped branch.
+	inTree map[bc.Hash]bool
 }
 
 func (b *book) add(c *ev.Case, pub string, v bvote, own bool, ctx map[string]interface{}) bool {
@@ -53,7 +57,12 @@ func (b *book) add(c *ev.Case, pub string, v bvote, own bool, ctx map[string]int
 			ctx["validator"] = pub[:16]
 			ctx["earlier"] = fmt.Sprintf("%d->%d(%s) via %s", o.sh, o.th, short(o.tgt), o.origin)
 			ctx["later"] = fmt.Sprintf("%d->%d(%s) via %s", v.sh, v.th, short(v.tgt), v.origin)
-			c.Violation(fmt.Sprintf("slashable-pair:%s:%s", who, kind), "the node holds two votes of one validator that break a Casper commandment", ctx)
+			where := ""
+			if b.inTree != nil && !b.inTree[o.tgt] {
+				where = ":earlier-vote-on-branch-dropped-from-the-checkpoint-tree-by-finalization"
+				ctx["earlier_target_in_engine_tree"] = false
+			}
+			c.Violation(fmt.Sprintf("slashable-pair:%s:%s%s", who, kind, where), "the node holds two votes of one validator that break a Casper commandment", ctx)
 			return false
 		}
 	}
@@ -91,6 +100,10 @@ func TestC18(t *testing.T) {
 		nEvents := 0
 		rn.run(steps, runOpt{reopenPct: 3, headerVotes: true}, func(si int, s chainkit.Step, err error, ob *obs, restarted bool) bool {
 			ctx := map[string]interface{}{"step": si, "event": s.String(), "after_restart": restarted, "shape": tr.Shape(), "trail": rn.trail}
+			bk.inTree = map[bc.Hash]bool{}
+			for _, n := range ob.nodes {
+				bk.inTree[n.Hash] = true
+			}
 			// 1. the event bus
 			rn.mu.Lock()
 			evs := append([]struct{}{}, make([]struct{}, 0)...)
